@@ -352,8 +352,47 @@ def r13_6(ck, F):
     ck.expect(n >= 1, "wrapper-before-event#sites", f"{n} site(s)", "no method combining a tracking wrapper with an explicit event found", None)
 
 
+def r13_7(ck, F):
+    ck.rule("R13.7", "a mirror does not start (or stop) as `done` while its initial value is incomplete: in "
+            "*Subscription::mirror the initial `done` flag of the mirror state is not the bare is_done() of the "
+            "subscription, or the task's stop-on-done is additionally guarded by completeness",
+            "collection marked done(), then subscribe_incremental().mirror(): the mirror starts done, applies the first "
+            "initial element and stops — it holds one element, reports done and no error", floor=4)
+    for adt, (file, inner, ev, mirror_inner, sub, mirrored) in OBSERVABLES.items():
+        if inner is None:
+            continue
+        b = F.body(f"{sub}::mirror")
+        aggs = [(bb, i, rv) for bb, i, rv in b.aggregates(mirror_inner)]
+        if not aggs:
+            raise mir.AnchorMissing(f"{mirror_inner} construction in {sub}::mirror")
+        bb, i, rv = aggs[0]
+        e = b.expr(rv["ops"][rv["fields"].index("done")])
+        bare = e[0] == "call" and e[1].endswith("Subscription::is_done")
+        task = F.bodies.get(f"{sub}::mirror::{{closure#0}}")
+        guard_ok = False
+        if task is not None:
+            for s in task.reachable:
+                t = task.term(s)
+                if t["t"] == "switch" and mir.last_field(switch_expr(task, s)) == "done":
+                    true_t = [x for x in mir.Body.term_succ(t) if x not in [tb for v, tb in t["targets"] if v == "0"]]
+                    # is the done-exit control dependent on `complete` as well?
+                    for sw, tb2, v2 in controlling_edges(task, s):
+                        if mir.last_field(switch_expr(task, sw)) == "complete":
+                            guard_ok = True
+                    for x in true_t:
+                        for sw in task.reach([x]):
+                            tt = task.term(sw)
+                            if tt["t"] == "switch" and mir.last_field(switch_expr(task, sw)) == "complete" and \
+                                    task.dominates(x, sw):
+                                guard_ok = True
+        ck.expect((not bare) or guard_ok, f"{sub.split('::')[-1]}::mirror#done-needs-complete",
+                  f"initial done = {mir.show(e)[:60]}" + (" (stop guarded by complete)" if guard_ok else ""),
+                  f"the mirror starts with done = is_done() although the initial value may be incomplete, and its task stops as "
+                  f"soon as `done` is set: an incremental subscription taken after done() yields a truncated mirror", b.loc(bb, i))
+
+
 def run(ck, F):
-    for r in (r13_1, r13_2, r13_3, r13_4, r13_5, r13_6):
+    for r in (r13_1, r13_2, r13_3, r13_4, r13_5, r13_6, r13_7):
         ck.run_rule(r)
 
 
